@@ -43,7 +43,7 @@ fn main() {
             let prop = args[2].as_str();
             let tier = args[3].as_str();
             let seed: u64 = args[4].parse().unwrap_or(1);
-            let mut g = Gen { rng: Rng(seed ^ 0xA5A5_5A5A_0000_0000), out: vec![] };
+            let mut g = Gen { rng: Rng(seed ^ 0xA5A5_5A5A_0000_0000), out: vec![], last_nanos: 0 };
             match prop {
                 "C01" => c01::generate(&mut g, tier),
                 "C02" => gens::gen_c02(&mut g, tier),
